@@ -16,7 +16,7 @@ func genC13(dir, tier string, seed int64) {
 	r := rand.New(rand.NewSource(seed))
 	n := 1200
 	if tier == "thorough" {
-		n = 20000
+		n = 80000
 	}
 	hdr := "From Coq Require Import List String ZArith.\nFrom V Require Import Case Run CheckC01 CheckC13.\nImport ListNotations.\nOpen Scope string_scope.\nOpen Scope Z_scope.\nDefinition cases : list scase := ["
 	cw := newCaseWriter(dir, "C13_signatures", hdr, opFooter,
